@@ -65,14 +65,21 @@ func (f *faultInjector) exec(q string, a ...any) {
 }
 
 // arm makes the K-th written row fail (K=0: count only).
-func (f *faultInjector) arm(k int) {
+func (f *faultInjector) arm(k int) { f.armWith(k, "FAIL") }
+
+// armAbort: like arm, but the failing statement is backed out entirely (SQLite's default for a failing statement). Needed
+// where the tested code runs a multi-row statement outside a transaction: RAISE(FAIL) would keep the rows the statement
+// had already changed, which no real storage fault does.
+func (f *faultInjector) armAbort(k int) { f.armWith(k, "ABORT") }
+
+func (f *faultInjector) armWith(k int, how string) {
 	f.exec(`UPDATE vf_cnt SET n = 0, failat = ? WHERE id = 1`, k)
 	for _, t := range f.tables {
 		for _, op := range []string{"INSERT", "DELETE", "UPDATE"} {
 			f.exec(fmt.Sprintf(`CREATE TRIGGER IF NOT EXISTS vf_%s_%s BEFORE %s ON %s BEGIN
 				UPDATE vf_cnt SET n = n + 1 WHERE id = 1;
-				SELECT RAISE(FAIL, 'verif injected storage fault') WHERE (SELECT n FROM vf_cnt WHERE id = 1) = (SELECT failat FROM vf_cnt WHERE id = 1);
-			END`, t, op, op, t))
+				SELECT RAISE(%s, 'verif injected storage fault') WHERE (SELECT n FROM vf_cnt WHERE id = 1) = (SELECT failat FROM vf_cnt WHERE id = 1);
+			END`, t, op, op, t, how))
 		}
 	}
 }
